@@ -1,5 +1,11 @@
 package gosym
 
+import (
+	"bytes"
+	"compress/gzip"
+	"io"
+)
+
 // Function-level models of helpers in the code under analysis that rely on reflect/unsafe.
 // A change inside these functions is invisible to the engine (stated in DESIGN.md 2.5).
 
@@ -175,6 +181,9 @@ func init() {
 	// The embedded descriptor bytes of *-reflection.go are gzip + meta encoded (not encodable);
 	// harnesses obtain descriptors from thrift_reflection.RegisterAST instead.
 	reg(tg+"thrift_reflection.BuildFileDescriptor", func(e *Engine, fr *frame, args []V) V {
+		if e.cfg.RealMeta {
+			return e.callSSANoIntrinsic(fr, tg+"thrift_reflection.BuildFileDescriptor", args)
+		}
 		return V{K: KPtr, P: (*V)(nil)}
 	})
 }
@@ -213,4 +222,68 @@ func init() {
 		return vStr(r.src)
 	})
 	reg(tg+"utils/dir_utils.ToAbsolute", func(e *Engine, fr *frame, args []V) V { return vTuple(args[0], vNilIface()) })
+}
+
+func init() {
+	// compress/gzip is an environment library (a DEFLATE encoder over symbolic bytes is out of
+	// reach). thrift_reflection.doGzip / doUnzip are modelled:
+	//   - all bytes concrete: the host's compress/gzip does the work (same library, same output)
+	//   - otherwise: an injective marker framing "ZZGZ" + data, which doUnzip strips
+	// so that Marshal/Unmarshal of descriptors with symbolic content exercise the meta codec.
+	allConcrete := func(s []V) ([]byte, bool) {
+		b := make([]byte, len(s))
+		for i, x := range s {
+			if x.K == KSym || x.K == KOpq {
+				return nil, false
+			}
+			b[i] = byte(x.N)
+		}
+		return b, true
+	}
+	mk := func(b []byte) V {
+		out := make([]V, len(b))
+		for i, x := range b {
+			out[i] = vUint(uint64(x))
+		}
+		return V{K: KSlice, P: out}
+	}
+	reg(tg+"thrift_reflection.doGzip", func(e *Engine, fr *frame, args []V) V {
+		s := args[0].slice()
+		if b, ok := allConcrete(s); ok {
+			var buf bytes.Buffer
+			w := gzip.NewWriter(&buf)
+			w.Write(b)
+			w.Close()
+			return vTuple(mk(buf.Bytes()), vNilIface())
+		}
+		out := make([]V, 0, len(s)+4)
+		for _, c := range []byte("ZZGZ") {
+			out = append(out, vUint(uint64(c)))
+		}
+		out = append(out, s...)
+		return vTuple(V{K: KSlice, P: out}, vNilIface())
+	})
+	reg(tg+"thrift_reflection.doUnzip", func(e *Engine, fr *frame, args []V) V {
+		s := args[0].slice()
+		if len(s) >= 4 {
+			if b, ok := allConcrete(s[:4]); ok && string(b) == "ZZGZ" {
+				cp := make([]V, len(s)-4)
+				copy(cp, s[4:])
+				return vTuple(V{K: KSlice, P: cp}, vNilIface())
+			}
+		}
+		b, ok := allConcrete(s)
+		if !ok {
+			e.unsupported("doUnzip of symbolic bytes without the model framing")
+		}
+		r, err := gzip.NewReader(bytes.NewReader(b))
+		if err != nil {
+			return vTuple(V{K: KSlice, P: []V(nil)}, e.newErrorString(vStr(err.Error())))
+		}
+		out, err := io.ReadAll(r)
+		if err != nil {
+			return vTuple(V{K: KSlice, P: []V(nil)}, e.newErrorString(vStr(err.Error())))
+		}
+		return vTuple(mk(out), vNilIface())
+	})
 }
